@@ -13,7 +13,7 @@ import (
 func gen(tier string, r *lib.Rand, emit func(string)) {
 	nodes, toklen, nrand := 5, 3, 3000
 	if tier == "thorough" {
-		nodes, toklen, nrand = 6, 5, 150000
+		nodes, toklen, nrand = 6, 4, 150000
 	}
 	hex := func(s string) string { return lib.Bytes([]byte(s)) }
 	script := func(ss ...ast.Statement) string { return acclib.EncScript(&ast.Chain{Statements: ss}) }
@@ -29,6 +29,17 @@ func gen(tier string, r *lib.Rand, emit func(string)) {
 				emit("expr " + acclib.EncExpr(e))
 			}
 		}
+	}
+	// naturally nested trees (depth bounded: the model parser is the un-memoised PEG)
+	deep := 12
+	if tier == "thorough" {
+		deep = 14
+	}
+	for k := 0; k <= deep; k++ {
+		for _, e := range acclib.NestedTrees(k) {
+			emit("print " + script(ast.Statement{Name: "x", Expr: ast.Operand(0)}, ast.Statement{Expr: e}))
+		}
+		emit("fmt " + hex(acclib.DeepSource(k)))
 	}
 	// (b) random deep trees over the full identifier alphabet, large operands and shift amounts
 	for i := 0; i < nrand; i++ {
